@@ -112,8 +112,10 @@ type c05LinesObs struct {
 	Panic bool     `json:"panic,omitempty"`
 }
 
-func (*c05) ID() string        { return "C05" }
-func (*c05) CoqImport() string { return "From Coq Require Import Uint63.\nFrom Helm Require Import Render.Pipeline Run.RunC05." }
+func (*c05) ID() string { return "C05" }
+func (*c05) CoqImport() string {
+	return "From Coq Require Import Uint63.\nFrom Helm Require Import Render.Pipeline Run.RunC05."
+}
 func (*c05) Rule() string {
 	return "generated charts (1-4 manifest templates per chart with 1-3 documents each, partials with chart-specific and deliberately " +
 		"clashing define names, 0-3 subcharts with 0-2 sub-subcharts, conditions/tags, tpl/include nesting, .Files Get/Glob/Lines/AsConfig/AsSecrets, " +
@@ -186,12 +188,19 @@ func (*c05) Corpus() []any {
 		func(c *c05Case) { c.Probe = true }))
 	// clashing define names at different depths: the parse order decides
 	out = append(out, c05CorpusChart("define-clash", merge(map[string]string{
-		"templates/_h.tpl":        "{{- define \"common.dup\" -}}from-parent{{- end -}}",
-		"templates/a/_h.tpl":      "{{- define \"common.dup\" -}}from-parent-a{{- end -}}",
-		"templates/cm.yaml":       "apiVersion: v1\nkind: ConfigMap\nmetadata:\n  name: x\ndata:\n  d: {{ include \"common.dup\" . | quote }}\n",
-		"charts/s/Chart.yaml":     "apiVersion: v2\nname: s\nversion: 0.1.0\n",
-		"charts/s/templates/_h.tpl": "{{- define \"common.dup\" -}}from-sub{{- end -}}",
+		"templates/_h.tpl":           "{{- define \"common.dup\" -}}from-parent{{- end -}}",
+		"templates/a/_h.tpl":         "{{- define \"common.dup\" -}}from-parent-a{{- end -}}",
+		"templates/cm.yaml":          "apiVersion: v1\nkind: ConfigMap\nmetadata:\n  name: x\ndata:\n  d: {{ include \"common.dup\" . | quote }}\n",
+		"charts/s/Chart.yaml":        "apiVersion: v2\nname: s\nversion: 0.1.0\n",
+		"charts/s/templates/_h.tpl":  "{{- define \"common.dup\" -}}from-sub{{- end -}}",
 		"charts/s/templates/cm.yaml": "apiVersion: v1\nkind: ConfigMap\nmetadata:\n  name: y\ndata:\n  d: {{ include \"common.dup\" . | quote }}\n"}), nil))
+	// the same define name in two partials of the SAME depth: only the name part of the template order decides
+	out = append(out, c05CorpusChart("define-clash-same-depth", map[string]string{
+		"templates/_a.tpl":  "{{- define \"common.dup\" -}}from-a{{- end -}}",
+		"templates/_b.tpl":  "{{- define \"common.dup\" -}}from-b{{- end -}}",
+		"templates/_c.tpl":  "{{- define \"common.dup\" -}}from-c{{- end -}}",
+		"templates/_d.tpl":  "{{- define \"common.dup\" -}}from-d{{- end -}}",
+		"templates/cm.yaml": "apiVersion: v1\nkind: ConfigMap\nmetadata:\n  name: x\ndata:\n  d: {{ include \"common.dup\" . | quote }}\n"}, nil))
 	// every schema $ref form once
 	for _, ref := range c05RefForms {
 		if ref == "file://@CANARY@/s.json" {
